@@ -64,13 +64,53 @@ Print Assumptions C08_inv_reachable.
    back.  Buffers are abstract ids held by the parser, the consumer or a sync.Pool; the
    per-function lists of ownership actions (alias into an outgoing sequence, emit, re-point
    the field to a fresh buffer / a pool buffer / a reslice of the same array, write) are
-   TRANSLATED from ansi/parser.go on every run (gen/GenOwn.v).  For every sequence of function
-   calls in any order, every choice sync.Pool.Get can make, and every moment at which the
-   consumer gives buffers back (including never): no write targets a buffer the consumer
-   holds. *)
+   TRANSLATED from ansi/parser.go on every run (gen/GenOwn.v), PATH-SENSITIVELY: one list per
+   control-flow path of each function from entry to a return ([own_paths]: both branches of
+   every if, a return ends the path, one path per switch clause, loops only with iterations
+   that either perform no ownership action or return), besides the coarse list that ignores
+   conditions ([own_all]).  A call event [ECallPath n p] runs the n-th function along its p-th
+   path, [ECall n] runs the merged list.  For every sequence of calls in any order along any
+   paths, every choice sync.Pool.Get can make, and every moment at which the consumer gives
+   buffers back (including never): no write targets a buffer the consumer holds. *)
 Theorem C08_no_write_after_handoff : forall es : list oevent, orun oinit es = true.
-Proof. exact (no_write_after_handoff own_all_ok). Qed.
+Proof. exact (no_write_after_handoff own_all_ok own_paths_ok). Qed.
 Print Assumptions C08_no_write_after_handoff.
+
+(* the proof obligation that breaks when a path of a translated function hands a buffer over
+   and returns before re-pointing the field (or writes after the hand-over): every path of every
+   buffer-touching function follows the discipline, and the two renderings are consistent
+   (every function has a path, every path is a subsequence of the function's merged list) *)
+Theorem C08_every_path_hands_off : paths_ok own_paths = true /\ paths_within own_all own_paths = true.
+Proof. split; [exact own_paths_ok|exact own_paths_within]. Qed.
+Print Assumptions C08_every_path_hands_off.
+
+(* stated on states: after ANY event sequence none of the parser's current buffers is held by
+   the consumer - whatever runs next writes into memory the consumer cannot see *)
+Theorem C08_consumer_never_holds_current : forall (es : list oevent) (k : bkind),
+  ~ In (cur (ofinal oinit es) k) (consumer (ofinal oinit es)).
+Proof. exact consumer_never_holds_current. Qed.
+Print Assumptions C08_consumer_never_holds_current.
+
+(* path-sensitivity is needed: "alias, emit, return" (the no-parameters fast path of a dispatch
+   taken before the field was re-pointed) is rejected as a path although the function's merged
+   list - where the re-pointing of the slow path follows - is accepted; and after that path, from
+   any state and for any buffer kind, the next write hits a buffer the consumer holds *)
+Theorem C08_early_return_refuted : forall (s : ost) (k : bkind) (choices : list (option Z)),
+  handoff_ok [OAlias k; OEmit] = false /\
+  (let '(s1, _, _) := run_fn s [OAlias k; OEmit] choices in write_safe s1 (OWrite k)) = false.
+Proof. exact early_return_unsafe. Qed.
+Print Assumptions C08_early_return_refuted.
+
+Example C08_merged_list_hides_early_return :
+  handoff_ok [OAlias KInter; OEmit; OReplace KInter PoolGet; OEmit] = true /\
+  paths_ok [[[OAlias KInter; OEmit]; [OEmit]; [OAlias KInter; OReplace KInter PoolGet; OEmit]]] = false.
+Proof. vm_compute. split; reflexivity. Qed.
+
+(* non-vacuity: a schedule along paths - CSI with intermediate and no parameters (fast path),
+   retained; collect; ESC dispatch with a pool buffer requested; Finish of the first buffer *)
+Example C08_path_schedule_example :
+  orun oinit [ECallPath 3 0 [None]; ECallPath 1 0 []; ECallPath 2 0 [Some 0]; EFinish 0; ECallPath 1 0 []] = true.
+Proof. vm_compute. reflexivity. Qed.
 
 (* the discipline is needed: re-using the delivered array (p.oscData = p.oscData[:0] after the
    emit) is rejected, and then a write does hit a buffer the consumer holds *)
